@@ -235,6 +235,9 @@ def main():
                     if pb.get('ok'):
                         rec['failing_input'] = pb['test']; rec['native_replay'] = pb['native_output']; suffix = ''
                         break
+        elif o['backend'] == 'frame-scan':
+            rec['verifier_output'] = o['detail']
+            rec['source'] = dict(fn=o['fn'], file=o['file'], lines=o['lines'])
         else:
             rec['verifier_output'] = o.get('raw', '')
             pb = (kani_info or {}).get('playback', {}).get(o['harness'])
